@@ -7,6 +7,7 @@
 -/
 import Proofs.Lemmas.Mask
 import Proofs.Lemmas.ComposeMask
+import Proofs.Lemmas.ComposeGni
 
 namespace C07
 open Pool Mask
@@ -265,5 +266,80 @@ example : ∃ fl cp th, Sift.maskSift (ComposeMask.maskM (fun _ => σex) (fun y 
 example : Mask.maskSift (fun _ => σex) (fun y => (y, true)) (fun _ _ _ => [1, -1, 1]) (fun _ => 1)
       { mode := .abs, amp := .scalar 1, p := 3, thresh := 0 } (.first (2/5) 2) 1 [5, 6, 7]
     = .ok ([[5, 6, 7]], [2/5]) := ComposeMask.okEq_sound (by decide +kernel)
+
+/-! ### Composition: `get_next_imf_mask` over `get_next_imf` of the Sift model (C04) and the Extrema envelopes
+
+  Linked: the abstract extractor `X` of this model is instantiated with `ComposeGni.gniX E D o` =
+  `Sift.getNextImf E D o` (envelope oracle `E`, energy oracle `D`, options `o`: stop rule, step, iteration
+  limit, energy threshold), and further with `E = Sift.extEnv I w parab` (the envelopes of the Extrema
+  model, C05).  `get_next_imf` may raise EMDSiftCovergeError, which propagates out of `get_next_imf_mask`;
+  the statements are about calls in which the extractions of the masked signals return (for the fixed-count
+  rule that is every call).  Helper lemmas: Proofs/Lemmas/ComposeGni.lean. -/
+
+/-- Phase-average rule for the composed pipeline: if `get_next_imf` returns `(c_i, f_i)` on `x + m_i`,
+    the masked IMF is the mean over the phases of `c_i − m_i` and the flag is the disjunction of the `f_i`. -/
+theorem getNextImfMask_over_getNextImf_spec (E : Sig → Sift.Env) (D : Sig → Sig → Rat) (o : Sift.ImfOpts)
+    (mask : Nat → Sig) (p : Nat) (x : Sig) (cs : Nat → Sig) (fs : Nat → Bool)
+    (h : ∀ i, i < p → Sift.getNextImf E D o (Sig.add x (mask i)) = .imf (cs i) (fs i)) :
+    getNextImfMask (ComposeGni.gniX E D o) mask p x =
+      (Ensemble.meanOver x.length ((List.range p).map fun i => Sig.sub (cs i) (mask i)), (List.range p).any fs) :=
+  ComposeGni.getNextImfMask_gni E D o mask p x cs fs h
+
+/-- With the fixed-count stop rule (`max_iters ≥ 1`) no hypothesis is needed: every masked extraction
+    returns (C04.fixed_never_convergeError) and the rule above holds. -/
+theorem getNextImfMask_over_getNextImf_fixed (E : Sig → Sift.Env) (D : Sig → Sig → Rat) (o : Sift.ImfOpts)
+    (hf : o.stop = .fixed) (hm : 0 < o.maxIters) (mask : Nat → Sig) (p : Nat) (x : Sig) :
+    ∃ (cs : Nat → Sig) (fs : Nat → Bool),
+      (∀ i, Sift.getNextImf E D o (Sig.add x (mask i)) = .imf (cs i) (fs i)) ∧
+      getNextImfMask (ComposeGni.gniX E D o) mask p x =
+        (Ensemble.meanOver x.length ((List.range p).map fun i => Sig.sub (cs i) (mask i)), (List.range p).any fs) := by
+  have hall : ∀ i, Sift.getNextImf E D o (Sig.add x (mask i)) =
+      .imf (ComposeGni.gniX E D o (Sig.add x (mask i))).1 (ComposeGni.gniX E D o (Sig.add x (mask i))).2 := by
+    intro i
+    obtain ⟨c, f, h⟩ := ComposeGni.fixed_total E D o hf hm (Sig.add x (mask i))
+    rw [ComposeGni.gniX_of_imf h]; exact h
+  exact ⟨_, _, hall, ComposeGni.getNextImfMask_gni E D o mask p x _ _ (fun i _ => hall i)⟩
+
+/-- Zero-amplitude masks over `get_next_imf`: `get_next_imf_mask` returns exactly what `get_next_imf`
+    returns on the unmasked signal (IMF and flag), for any `nphases ≥ 1`, every stop rule and options. -/
+theorem getNextImfMask_over_getNextImf_zero_amp (E : Sig → Sift.Env) (hE : Sift.EnvLen (fun _ => E))
+    (D : Sig → Sig → Rat) (o : Sift.ImfOpts) (unit : Nat → Sig) (p : Nat) (x : Sig) (hp : 0 < p)
+    (hu : ∀ i, i < p → (unit i).length = x.length) (c : Sig) (f : Bool)
+    (h : Sift.getNextImf E D o x = .imf c f) :
+    getNextImfMask (ComposeGni.gniX E D o) (fun i => Sig.smul 0 (unit i)) p x = (c, f) := by
+  have hX : (ComposeGni.gniX E D o x).1.length = x.length := by
+    rw [ComposeGni.gniX_of_imf h]
+    exact C04.result_length (fun _ => E) hE D o x c f h
+  rw [getNextImfMask_zero_amp (ComposeGni.gniX E D o) unit p x hp hu hX, ComposeGni.gniX_of_imf h]
+
+/-- … for the whole chain get_padded_extrema → interp_envelope → get_next_imf → get_next_imf_mask
+    (envelopes of the Extrema model, only the interpolant abstract). -/
+theorem getNextImfMask_pipeline_zero_amp (I : Extrema.Interp) (w : Nat) (parab : Bool)
+    (D : Sig → Sig → Rat) (o : Sift.ImfOpts) (unit : Nat → Sig) (p : Nat) (x : Sig) (hp : 0 < p)
+    (hu : ∀ i, i < p → (unit i).length = x.length) (c : Sig) (f : Bool)
+    (h : Sift.getNextImf (Sift.extEnv I w parab) D o x = .imf c f) :
+    getNextImfMask (ComposeGni.gniX (Sift.extEnv I w parab) D o) (fun i => Sig.smul 0 (unit i)) p x = (c, f) :=
+  getNextImfMask_over_getNextImf_zero_amp _ (Sift.extEnv_len I w parab) D o unit p x hp hu c f h
+
+/-- The continue flag of the composed pipeline (C07 flag rule + C04 flag rule, no energy threshold): the
+    masked extraction clears the flag exactly when every masked signal `x + m_i` already lacks an
+    envelope — i.e. no phase could be sifted at all. -/
+theorem getNextImfMask_over_getNextImf_flag (E : Sig → Sift.Env) (D : Sig → Sig → Rat) (o : Sift.ImfOpts)
+    (he : o.energyThresh = none) (hb : 0 < Sift.budget o) (mask : Nat → Sig) (p : Nat) (x : Sig)
+    (cs : Nat → Sig) (fs : Nat → Bool)
+    (h : ∀ i, i < p → Sift.getNextImf E D o (Sig.add x (mask i)) = .imf (cs i) (fs i)) :
+    (getNextImfMask (ComposeGni.gniX E D o) mask p x).2 = false ↔
+      ∀ i, i < p → ((E (Sig.add x (mask i))).1 = none ∨ (E (Sig.add x (mask i))).2 = none) := by
+  rw [ComposeGni.getNextImfMask_gni E D o mask p x cs fs h]
+  simp only [List.any_eq_false, List.mem_range]
+  constructor
+  · intro hall i hi
+    exact (ComposeGni.flag_false_iff_env E D o he hb _ _ _ (h i hi)).mp (by simpa using hall i hi)
+  · intro hall i hi
+    simpa using (ComposeGni.flag_false_iff_env E D o he hb _ _ _ (h i hi)).mpr (hall i hi)
+
+-- non-vacuity: the toy oracle / options of C04 (fixed count 2): the hypotheses of the fixed-rule theorem
+example : (C04.toyO .fixed 2).stop = .fixed ∧ 0 < (C04.toyO .fixed 2).maxIters ∧ 0 < Sift.budget (C04.toyO .fixed 2) :=
+  ⟨rfl, by decide, by decide⟩
 
 end C07
